@@ -81,7 +81,7 @@ std::vector<PropSpec> const& props()
         {"C17", {{"history", 50}, {"poison", 20}, {"select", 15}, {"bins", 15}}, 60000, 2400000, "exploration",
             "per-call protocol state machine inside scripted map and integrand; distinct = distinct plan shape hashes"},
         {"C18", {{"fscrash", 100}}, 25000, 1000000, "fault_enumeration",
-            "one traced execution per plan (serial, or under the MPI shim with every file system call a scheduling point), every file system event boundary and byte prefix of every write evaluated as kill point (quick: all prefixes of writes up to 512 bytes, else first/last 64, 4096-byte boundaries and 256 seeded offsets); plus executed sequences of up to four kills and restarts, some restarts in a non-writing mode; distinct = distinct plan shape hashes"},
+            "one traced execution per plan (serial, or under the MPI shim with every file system call a scheduling point), every file system event boundary and byte prefix of every write evaluated as kill point (quick: all prefixes of writes up to 512 bytes, else first/last 64, 4096-byte boundaries and 256 seeded offsets); plus executed sequences of up to four kills and restarts, some restarts in a non-writing mode; plus two integrations side by side on a split world, each writing its own file; distinct = distinct plan shape hashes"},
         {"C19", {{"history", 35}, {"restart", 25}, {"mpi", 25}, {"rollback", 15}}, 10000, 400000, "exploration",
             "bitwise chain of recorded states against the library's own refinement (uninterrupted, resumed, rolled back, MPI, adaptation parameters changed between runs), points recomputed from the recorded state under the scripted engine; distinct = distinct plan shape hashes"},
         {"C20", {{"modes", 100}}, 16000, 640000, "exploration",
@@ -110,7 +110,7 @@ std::vector<std::string> expected_reach(std::string const& id)
         {"C15", {"rollback", "rollback-noop", "rollback-to-zero", "rollback-too-large", "rollback-after-reload", "reload", "continuation-with-other-calls", "last-iteration-redone-by-hand"}},
         {"C16", {"empty-share", "split-communicator"}},
         {"C17", {"lazy-densities-skipped", "canonical-zero"}},
-        {"C18", {"crash-states", "fault:short-write", "fault:eintr", "fault:open-fails", "fault:kill-at-fs-event", "fault:kill-at-call", "fault:descheduled-before-file-system-call", "restart-in-a-non-writing-mode"}},
+        {"C18", {"crash-states", "fault:short-write", "fault:eintr", "fault:open-fails", "fault:kill-at-fs-event", "fault:kill-at-call", "fault:descheduled-before-file-system-call", "restart-in-a-non-writing-mode", "two-integrations-in-one-process"}},
         {"C19", {"fault:clean-interruption", "fault:restart-before-first-iteration", "empty-share", "adaptation-parameters-changed-between-runs"}},
         {"C20", {"fault:short-write", "fault:io-error", "fault:cout-fail", "summary-many-channels", "user-defined-checkpoint-class"}},
     };
